@@ -3,6 +3,7 @@ import itertools
 import numpy as np
 from harness.coqcases import run_bool_cases
 
+PROPS_FILES = ["P_C09", "P_C09mx"]
 PROPS_FILE = "P_C09"
 COQ_TARGETS = ["CaseLib", "SepModel"]
 RULE = ("correspondence: entanglement._separation_matrix(n, arange(2^n), partition) gives, for every index k, its (row, column); "
@@ -77,7 +78,7 @@ def replay(ctx, case):
 
 
 MANIFEST = dict(
-    text='Proof (FULL for the reshape): reshaping to the bipartition matrix and back is the identity on digit lists and on amplitude indices, for every n, every list of axes in any order (C09_undo_sep, C09_sep_undo, C09_index_roundtrip); the index map lands inside the declared rows x columns shape and never sends two amplitude indices to the same cell (C09_index_range, C09_index_injective), and composing (row, column) digits into an index and separating again gives them back (C09_index_sep_undo): the index map is a bijection onto the grid. Tie: the index map of entanglement._separation_matrix is compared inside Coq with SepModel.sep_index for every subset and shuffled orders (n<=5/7). Orthonormality, ordering and rank count are the SVD contract (evaluated).',
+    text='Proof (FULL for the reshape): reshaping to the bipartition matrix and back is the identity on digit lists and on amplitude indices, for every n, every list of axes in any order (C09_undo_sep, C09_sep_undo, C09_index_roundtrip); the index map lands inside the declared rows x columns shape and never sends two amplitude indices to the same cell (C09_index_range, C09_index_injective), and composing (row, column) digits into an index and separating again gives them back (C09_index_sep_undo): the index map is a bijection onto the grid. Composition: sum_i s_i u_i (x) v_i equals U diag(s) Vh on the bipartition matrix, so decomposition then composition returns the matrix under the SVD contract M = U diag(s) Vh (C09_schmidt_compose, C09_schmidt_roundtrip; any commutative ring, any rank). Tie: the index map of entanglement._separation_matrix is compared inside Coq with SepModel.sep_index for every subset and shuffled orders (n<=5/7). Orthonormality, ordering and rank count are the SVD contract (evaluated).',
     note='Modelled, not verified: numpy reshape/moveaxis (tied by the index-map correspondence); np.linalg.svd contract.',
-    technique='Coq proof (structural induction on masks/digits) + index-map correspondence (vm_compute) + numpy evaluation',
+    technique='Coq proof (structural induction on masks/digits; mathcomp matrix algebra for the composition) + index-map correspondence (vm_compute) + numpy evaluation',
     design_ref='DESIGN.md section 4, C09')
